@@ -61,7 +61,7 @@ def handle : List Sexp → Option String
 
 /-- every model module contributes a handler; the first one that recognises the request answers -/
 def handlers : List (List Sexp → Option String) :=
-  [handle]
+  [handle, Asn1.Time.handle]
 
 def dispatch (sx : List Sexp) : Option String :=
   handlers.findSome? (fun h => h sx)
